@@ -457,3 +457,75 @@ def solver_stream(run: Run):
 
 def stream_groups(run: Run):
     return conj_groups([(l, g, t) for l, g, t, _ in solver_stream(run)])
+
+
+# ---------------------------------------------------------------------------
+# cardinality predicates: a term that constrains how many flags of one list are true, as a linear formula over
+# (count, n, size) - so that  And(flags) under `n == len(flags)`  is recognised as `count >= n`, but not as `count <= n`
+# ---------------------------------------------------------------------------
+COUNT, SIZE = ("sym", "count_of_true_flags"), ("sym", "number_of_flags")
+
+
+def cardinality_predicate(t, flag_each):
+    """formula over COUNT / SIZE denoted by a term over the flags `flag_each` (an `each` item), or None when the term is not
+    a recognised cardinality form.  Recognised: PbGe/PbLe/PbEq([(flag, 1)...], n), And / Or / Not(Or) of all the flags,
+    python or z3 conditionals between such forms whose test compares arithmetic over len(<the flags>)."""
+    from .decide import canon, norm as _norm
+    fkey = repr(canon(_norm(flag_each)))
+
+    def is_flags(x):
+        """x: tuple of items that is exactly the flags (plain or paired with weight 1 / True)"""
+        if len(x) != 1 or not (isinstance(x[0], tuple) and x[0] and x[0][0] == "each"):
+            return None
+        e = x[0]
+        body = e[3]
+        weighted = False
+        if isinstance(body, tuple) and body and body[0] == "tuple" and len(body[1]) == 2 and body[1][1] in (TRUE, K(1)):
+            body, weighted = body[1][0], True
+        return weighted if repr(canon(_norm(("each", e[1], e[2], body)))) == fkey else None
+
+    def size_subst(x):
+        """len([flags]) / len(list the flags range over) -> SIZE inside a test"""
+        m = {}
+        for s_ in subterms(x):
+            if s_ and s_[0] == "call" and s_[1] == "len" and len(s_[2]) == 1:
+                a = s_[2][0]
+                if isinstance(a, tuple) and a and a[0] == "list" and is_flags(a[1]) is not None:
+                    m[s_] = SIZE
+                elif _norm(a) == _norm(flag_each[1][-1][3]) and not flag_each[2]:
+                    m[s_] = SIZE
+        return substitute(x, m)
+
+    def go(x):
+        if x and x[0] == "phi":
+            a, b = go(x[2]), go(x[3])
+            return None if a is None or b is None else app("If", size_subst(x[1]), a, b)
+        if is_app(x, "If") and len(x) == 5:
+            a, b = go(x[3]), go(x[4])
+            return None if a is None or b is None else app("If", size_subst(x[2]), a, b)
+        if is_app(x) and x[1] in ("PbGe", "PbLe", "PbEq") and len(x) == 4:
+            lst = x[2]
+            if isinstance(lst, tuple) and lst and lst[0] == "list" and is_flags(lst[1]) is True:
+                return app({"PbGe": ">=", "PbLe": "<=", "PbEq": "=="}[x[1]], COUNT, x[3])
+            return None
+        if is_app(x) and x[1] in ("And", "Or") and is_flags(x[2:]) is False:
+            return app("==", COUNT, SIZE) if x[1] == "And" else app(">=", COUNT, K(1))
+        if is_app(x, "Not") and len(x) == 3 and is_app(x[2], "Or") and is_flags(x[2][2:]) is False:
+            return app("==", COUNT, K(0))
+        return None
+    return go(t)
+
+
+def decide_cardinality(emitted, flag_each, relation, n_term, side=()):
+    """(ok, detail): the emitted term constrains the number of true flags by `count <relation> n` for every n and size"""
+    from .decide import linear_equiv, Undecided
+    pred = cardinality_predicate(emitted, flag_each)
+    if pred is None:
+        return False, "not a cardinality constraint over all the flags"
+    spec = app(relation, COUNT, n_term)
+    try:
+        ok, wit = linear_equiv(pred, spec, side=[app(">=", COUNT, K(0)), app("<=", COUNT, SIZE)] + list(side))
+    except Undecided as u:
+        return False, f"undecided ({u})"
+    return ok, (f"count {relation} n for every count, n and list size ({wit})" if ok else
+                f"differs from `count {relation} n` for {wit['values']} (emitted {wit['first']}, documented {wit['second']})")
